@@ -145,15 +145,23 @@ def stage_x(ctx, rng, jobs, instances):
     return stats
 
 
-def gen_basic_index(rng, shape):
-    """batch: ints / slices; the two matrix positions: slices (positive step) — what _getitem receives for basic indices"""
+def gen_basic_index(rng, shape, eq=None):
+    """batch: ints / slices; the two matrix positions: slices (positive step) — what _getitem receives for basic indices.
+    eq = "eq" / "near": the column slice is a copy / a near copy of the row slice (generated for the smaller dimension)"""
     items = []
     nd = len(shape)
+    shape = list(shape)
+    if eq:
+        shape[-2] = min(shape[-2], shape[-1])
     for d, n in enumerate(shape):
         if d < nd - 2 and rng.random() < 0.4:
             items.append(ix.I(rng.randrange(-n, n)))
+        elif d >= nd - 2 and eq:
+            items.append(ix.gen_slice(rng, rng.choice(["step", "step", "ab", "neg", "a", "unit", "stopn"]), n))
         else:
             items.append(ix.gen_slice(rng, rng.choice(list(ix.SLICE_KINDS)), n))
+    if eq:
+        items[-1] = ix.derive_col(rng, items[-2], eq, shape[-1])
     return items
 
 
@@ -161,6 +169,7 @@ def stage_g(ctx, rng, jobs):
     import linear_operator.operators as O
     reps = 12 if ctx.quick else 120
     cases, meta = [], []
+    overridden = set()
     R = lambda *s: lib.rand_mat(rng, *s)
     D = O.DenseLinearOperator
     for j in range(reps):
@@ -185,11 +194,21 @@ def stage_g(ctx, rng, jobs):
             dd = dop.to_dense()
             if lib.integral(dd):
                 specs.append(("GDefault %s" % tlit_torch(dd), dop, dname))
+            if "_getitem" in type(dop).__dict__:
+                # the class no longer inherits the default _getitem: its override is still compared with the transcription
+                # of the default (= two-stage indexing of the dense matrix, the right answer for any correct override)
+                overridden.add(type(dop).__name__)
         for lit, op, name in specs:
             shape = list(op.shape)
-            for _ in range(2):
-                items = gen_basic_index(rng, shape)
+            for q in range(4):
+                items = gen_basic_index(rng, shape, eq=[None, None, "eq", "near"][q])
                 idx = ix.to_py(items, False)
+                if q >= 2:
+                    try:
+                        if torch.zeros(shape)[idx].numel() == 0:
+                            continue
+                    except Exception:      # noqa
+                        continue
                 try:
                     res = op._getitem(idx[-2], idx[-1], *idx[:-2])
                     res = res if torch.is_tensor(res) else res.to_dense()
@@ -202,4 +221,4 @@ def stage_g(ctx, rng, jobs):
                 meta.append({"fn": "%sLinearOperator._getitem" % name, "shape": shape, "index": ix.show(items), "observed": shown})
     jobs.bad("L3g", lib.mk_shards("l3g", "xgt_case", cases, "bad_xgt"),
              lambda bad, meta=meta: lib.report_lib(ctx, bad, meta, "class-level _getitem transcriptions (Model.v part 7)"))
-    return {"l3g_cases": len(cases)}
+    return {"l3g_cases": len(cases), "l3g_default_getitem_overridden_by": sorted(overridden)}
